@@ -26,7 +26,7 @@ import mergecommon as mc
 
 ID = 'C12'
 TITLE = 'A tar-packed feature store equals its directory form; appends are durable'
-GEN = []
+GEN = ['IoShapes']
 RULE = ('kill cases: an append history of n <= 6 (quick) / 20 (thorough) arrays over 1..4 names (overwrites, half of them with the same shape as the array they replace), random shapes incl. '
         'empty arrays and data crossing the 512-byte block size, a writer subprocess SIGKILLed after the k-th completed append for '
         'each k in 0..n; store cases: generated datasets with several feature types, image names with nested folders, packed kind '
